@@ -52,3 +52,23 @@ def c01(run):
                         "lengths above 70000 are exercised on the header codec only (no payload of that size is materialised)"]
     records_check(run, b, "c01", "C01Records")
     return run.finish("exploration")
+
+
+@prop("C02")
+def c02(run):
+    b = run.build()
+    vlib.tlc_model(run, "MaskStream", workers=8)
+    run.assumptions += ["WsBytes!Mask is RFC 6455 5.3 verbatim; MaskStream.tla proves chunked = one-shot and that the head/stride/tail index arithmetic of cipher.go equals Mask for lengths 0..44 x 10 offsets (TLC, exhaustive)",
+                        "offsets within 8 of MaxInt are left out (signed overflow of offset+i; the property's offsets are stream positions)"]
+    records_check(run, b, "c02", "C02Records")
+    return run.finish("exploration")
+
+
+@prop("C03")
+def c03(run):
+    b = run.build()
+    run.assumptions += ["WsCheck!Broken / CloseCodeClass transcribe the rules named in the property; 1012-1014 and codes >= 5000 are open",
+                        "UTF-8 validity of close reasons is decided by Utf8!WellFormed (RFC 3629 table), itself model-checked against the incremental automaton (MCUtf8)"]
+    vlib.tlc_model(run, "MCUtf8", workers=8)
+    records_check(run, b, "c03", "C03Records")
+    return run.finish("exploration")
